@@ -132,18 +132,19 @@ class CodeData(DataclassHideDefault):
         Iterates through all the code data which are included,
         by processing the arguments recursively.
         """
-        for block in self.blocks:
-            for instruction in block:
-                arg = instruction.arg
-                if isinstance(arg, Constant) and isinstance(arg.constant, CodeData):
-                    yield arg.constant
+        # Each entry of the constants is yielded once, even if multiple instructions
+        # load it (i.e. a function defined in a finally block, which is duplicated)
+        seen: set = set()
+        args = [instruction.arg for block in self.blocks for instruction in block]
         # Nested code objects can also be left in the constants without any
         # instruction referencing them, if their definition was eliminated as dead code
-        for additional_arg in self._additional_args:
-            if isinstance(additional_arg, Constant) and isinstance(
-                additional_arg.constant, CodeData
-            ):
-                yield additional_arg.constant
+        args.extend(self._additional_args)
+        for arg in args:
+            if isinstance(arg, Constant) and isinstance(arg.constant, CodeData):
+                key = arg.constant if arg._index_override is None else arg._index_override
+                if key not in seen:
+                    seen.add(key)
+                    yield arg.constant
 
     def all_code_data(self) -> Iterator[CodeData]:
         """
